@@ -47,14 +47,14 @@ impl StateMachine<'_> {
     //@after? <<<self.emit_hunk_header_line(parsed_hunk_header, line, raw_line)?;>>>| proof { header_shown = true; }
     //@before <<<self.state = match new_line_state(>>>| assert(/* @C02,C14:a.hunk.header.that.was.held.back.is.shown.before.the.first.line.of.its.hunk */ old(self).state is HunkHeader ==> header_shown);
     //@before <<<self.painter.output_buffer.push('\n');>>>| proof { fell_through = true; }
-    //@before <<<Ok(true)>>>| assert(/* @C01:a.line.of.a.hunk.that.is.no.hunk.line.leaves.the.marker.columns.of.the.hunk.alone */ fell_through ==> self.state == State::HunkZero(hunk_dt(old(self).state), None));
-    //@before <<<Ok(true)>>>| assert(/* @C01,C02,C11:hhl.order.step */ all_lines(&self.painter).drop_last() =~= all_lines(&old(self).painter));
+    //@before#2/2 <<<Ok(>>>| assert(/* @C01:a.line.of.a.hunk.that.is.no.hunk.line.leaves.the.marker.columns.of.the.hunk.alone */ fell_through ==> self.state == State::HunkZero(hunk_dt(old(self).state), None));
+    //@before#2/2 <<<Ok(>>>| assert(/* @C01,C02,C11:hhl.order.step */ all_lines(&self.painter).drop_last() =~= all_lines(&old(self).painter));
     // the same function once more (same text), for the two clauses about the KIND of the line only: kept apart from the
     // bookkeeping of the line history above so that each query stays small
     //@ fn src/handlers/hunk.rs StateMachine::handle_hunk_line as=handle_hunk_line_kinds spec=hunk.handle_hunk_line_kinds
     //@before <<<if !self.test_hunk_line() {>>>| let ghost mut fell_through = false;
     //@before <<<self.painter.output_buffer.push('\n');>>>| proof { fell_through = true; }
-    //@before <<<Ok(true)>>>| assert(/* @C01,C10,C14:the.lines.of.the.old.file.removed.unchanged.and.truly.empty.ones.are.counted.once.each.and.no.other.line.is */ self.minus_line_counter == (if (!fell_through && (self.state is HunkMinus || self.state is HunkZero)) || (fell_through && old(self).line@.len() == 0) { old(self).minus_line_counter.counted_once() } else { old(self).minus_line_counter }));
+    //@before#2/2 <<<Ok(>>>| assert(/* @C01,C10,C14:the.lines.of.the.old.file.removed.unchanged.and.truly.empty.ones.are.counted.once.each.and.no.other.line.is */ self.minus_line_counter == (if (!fell_through && (self.state is HunkMinus || self.state is HunkZero)) || (fell_through && old(self).line@.len() == 0) { old(self).minus_line_counter.counted_once() } else { old(self).minus_line_counter }));
 }
 
 } // verus!
